@@ -199,7 +199,9 @@ InitResolve ==
         full == Depth = "thorough" /\ Plain(o) /\ w.size = "small" /\ w.redir = "none" /\ ~(maybe /\ ~w.target.valid)
         slim == \/ Depth = "quick" /\ maybe /\ ~w.target.valid /\ w.target \notin {Inv(hp) : hp \in CoreInvDeleg}
                 \/ w.redir = "ok" /\ maybe        \* both tables are read (latitude): keep their product small
-        ks(reads) == IF slim /\ reads THEN SrvKindsSlim ELSE IF reads \/ full THEN SrvKinds ELSE {"one"}
+        \* thorough: the table the algorithm must NOT read is varied too, over a smaller set
+        ks(reads) == IF slim /\ reads THEN SrvKindsSlim ELSE IF reads THEN SrvKinds
+                     ELSE IF full THEN {"nx", "one", "tie", "err"} ELSE {"one"}
     IN
     \E sf \in ks(readsS), sl \in (IF slim /\ readsS THEN {"nx", "one"} ELSE ks(readsS)),
        df \in ks(readsD), dl \in (IF slim /\ readsD THEN {"nx", "one"} ELSE ks(readsD)) :
